@@ -232,13 +232,15 @@ bool splinetable<Alloc>::read_fits_core(fitsfile* fits, const std::string& fileP
 				aux[i] = allocate<char_ptr>(2);
 				aux[i][0] = aux[i][1] = NULL;
 				aux[i][0] = allocate<char>(keylen);
+				//terminate the key at once: if the next allocation fails, clear()
+				//takes the size of this block from strlen()
+				std::copy(key,key+keylen,aux[i][0]);
 				//the quotes are not stored (see below); the block is later released
 				//with strlen()+1 as its size, so request exactly that
 				size_t storedlen = valuelen;
 				if(valuelen>1 && value[0]=='\'')
 					storedlen -= (valuelen>2 && value[valuelen-2]=='\'') ? 2 : 1;
 				aux[i][1] = allocate<char>(storedlen);
-				std::copy(key,key+keylen,aux[i][0]);
 				//remove stupid quotes mandated by FITS, but not removed by cfitsio on reading
 				//Note that we do not attempt to remove whitespace, because we cannot 
 				//distinguish whitespace included by the user and whitespace pointlessly
